@@ -448,6 +448,6 @@ func init() {
 		},
 		Real: append([]string{"internal/martian/mitm (leaf minting, cache with TTL and capacity, re-validation on hit), handleMITM, MITM domain filter, transport TLS verification of origins"}, realForwarder...),
 		Stub: stubCommon,
-		Rule: "certificate cache capacity 1..1024, cache TTL 1 s..6 h, leaf validity 2 s..24 h, optional mitm-domains include/exclude lists; 1-3 waves of 1-12 concurrent CONNECTs to DNS names (case variants), IPv4 and bracketed IPv6 literals and odd ports, with SNI equal / absent / different; between waves the fake clock jumps past the TTL and/or the validity; origins present valid, expired, wrong-name or untrusted certificates; optionally everything leaves through an HTTP or HTTPS upstream proxy (a byte relay inside the simulation). Oracle: crypto/x509 verification at the client against the MITM CA with the simulated current time and the name asked for; origin request counters; excluded hosts must show the origin's own certificate. Non-trivial = all handshakes judged.",
+		Rule: "certificate cache capacity 1..1024, cache TTL 1 s..6 h, leaf validity 2 s..24 h, optional mitm-domains include/exclude lists; 1-3 waves of 1-12 concurrent CONNECTs to DNS names (case variants), IPv4 and bracketed IPv6 literals and odd ports, with SNI equal / absent / different; between waves the fake clock jumps past the TTL and/or the validity; origins present valid, expired, wrong-name or untrusted certificates; optionally everything leaves through an HTTP or HTTPS upstream proxy (a byte relay inside the simulation). Oracle: crypto/x509 verification at the client against the MITM CA with the simulated current time and the name asked for; origin request counters; excluded hosts must show the origin's own certificate. Non-trivial = all handshakes judged. Later additions: names longer than 64 characters.",
 	})
 }
